@@ -62,6 +62,8 @@ let () =
     | "mach" -> Model.run_mach oc
     | "tbl" -> Model.run_tbl oc
     | "codec" -> Model.run_codec oc
+    | "map" -> Model.run_map oc
+    | "tree" -> Model.run_ptree oc
     | _ -> failwith ("unknown engine " ^ engine) in
   let out = Buffer.create 65536 in
   (try
